@@ -148,6 +148,61 @@ class HSymMixin(Hooks, SymlinkNodeMixin):
         return "HSymMixin(%r)" % (self.target,)
 
 
+class HSymProp(Hooks, SymlinkNodeMixin):
+    """Link whose ``target`` is a property (validated on assignment), stored under a private key."""
+
+    def __init__(self, target, parent=None, children=None):
+        self.target = target
+        self.parent = parent
+        if children:
+            self.children = children
+
+    @property
+    def target(self):
+        return self.__dict__["_tgt"]
+
+    @target.setter
+    def target(self, value):
+        if value is None:
+            raise ValueError("a link needs a target")
+        self.__dict__["_tgt"] = value
+
+    def __repr__(self):
+        return "HSymProp(%r)" % (self.target,)
+
+
+class HSymSlot(Hooks, SymlinkNodeMixin):
+    """Link that keeps ``target`` in a slot, not in the instance dict."""
+
+    __slots__ = ("target",)
+
+    def __init__(self, target, parent=None, children=None):
+        self.target = target
+        self.parent = parent
+        if children:
+            self.children = children
+
+    def __repr__(self):
+        return "HSymSlot(%r)" % (self.target,)
+
+
+def class_level_link(target, parent=None):
+    """Link whose ``target`` is a class attribute (all links of that class point at one node)."""
+
+    class HSymClassLevel(Hooks, SymlinkNodeMixin):
+        def __init__(self, parent=None):
+            self.parent = parent
+
+        def __repr__(self):
+            return "HSymClassLevel(%r)" % (self.target,)
+
+    HSymClassLevel.target = target
+    return HSymClassLevel(parent=parent)
+
+
+LINK_VARIANTS = {"HSymMixin": HSymMixin, "HSymProp": HSymProp, "HSymSlot": HSymSlot, "HSymClassLevel": class_level_link}
+
+
 class ValNM(Hooks, NodeMixin):
     """Value semantics: equal / hash-equal when the keys agree (several nodes share a key)."""
 
